@@ -241,6 +241,9 @@ var sharedOp *jwt.OperatorClaims
 // scope's own key, left at the zero value)
 var sharedHand *jwt.AccountClaims
 
+// shared generic claims that wrap another claim: no top-level type, a nats section of their own that has one
+var sharedGen *jwt.GenericClaims
+
 // read-only queries on one shared object
 func c17Shared(ac *jwt.AccountClaims, uc *jwt.UserClaims, act *jwt.ActivationClaims) []string {
 	var out []string
@@ -252,6 +255,10 @@ func c17Shared(ac *jwt.AccountClaims, uc *jwt.UserClaims, act *jwt.ActivationCla
 		add("op spare=%q", sharedOp.SigningKeys[:cap(sharedOp.SigningKeys)][len(sharedOp.SigningKeys):])
 	}
 	add("string=%d", len(ac.String()))
+	if sharedGen != nil {
+		add("gen type=%s prefixes=%v subject=%s payload=%v", sharedGen.ClaimType(), sharedGen.ExpectedPrefixes(), sharedGen.Claims().Subject, reflect.TypeOf(sharedGen.Payload()))
+		add("gen string=%d", len(sharedGen.String()))
+	}
 	if sharedHand != nil {
 		add("hand string=%d payload=%v", len(sharedHand.String()), reflect.TypeOf(sharedHand.Payload()))
 		hk := sharedHand.SigningKeys.Keys() // (in map order: sorted here)
@@ -371,6 +378,10 @@ func runC17(c *Ctx) {
 		sharedHand.SigningKeys.Add(newSigner("account").pub)
 	}
 	handBefore := canonString(reflect.ValueOf(sharedHand).Elem())
+	sharedGen = jwt.NewGenericClaims(kr.by["account"].pub)
+	sharedGen.Data["nats"] = map[string]interface{}{"type": "wrapped_kind", "tags": []interface{}{"t"}, "version": float64(1)}
+	sharedGen.Data["other"] = "entry"
+	genBefore := fmt.Sprint(sharedGen.Data)
 	sharedU, _ := jwt.DecodeUserClaims(userTok)
 	sharedA, _ := jwt.DecodeActivationClaims(tokens["activation"])
 	baseShared := norm(c17Shared(shared, sharedU, sharedA))
@@ -541,6 +552,10 @@ func runC17(c *Ctx) {
 	c.sum.ImplChecks++
 	if after := canonString(reflect.ValueOf(shared).Elem()); after != sharedBefore {
 		c.violation("C17: read-only queries changed the shared claims object", map[string]interface{}{"diff": firstDiff(sharedBefore, after)})
+	}
+	c.sum.ImplChecks++
+	if after := fmt.Sprint(sharedGen.Data); after != genBefore {
+		c.violation("C17: read-only queries (the claim type among them) changed the shared generic claims object", map[string]interface{}{"before": genBefore, "after": after})
 	}
 	c.sum.ImplChecks++
 	if after := canonString(reflect.ValueOf(sharedHand).Elem()); after != handBefore {
